@@ -85,36 +85,66 @@ pub proof fn lemma_unary_inverse(hs: Seq<Seq<bool>>, v: int, i: int, tail: Seq<S
     }
 }
 
-// ---- fixed number of bits, most significant first; the bit with index i uses cell min(N-1, i) ----
-pub open spec fn bit_of(bits: u64, i: int) -> bool { (bits as nat / pow2_nat(i)) % 2 == 1 }
-
-pub open spec fn pow2_nat(i: int) -> nat
-    decreases i
-{
-    if i <= 0 { 1 } else { 2 * pow2_nat(i - 1) }
-}
-
-/// history of the cell used for bit index i when bits nb-1 .. i+1 of `bits` were coded before
-pub open spec fn nbits_cell_hist(hs: Seq<Seq<bool>>, bits: u64, nb: int, i: int) -> Seq<bool> {
+// ---- fixed number of bits, most significant first; the bit with index i = nb-1-t uses cell min(N-1, i) ----
+/// history of the cell used at step t (bit index nb-1-t) when the bits bs[0..t] were coded before
+pub open spec fn nbits_cell_hist(hs: Seq<Seq<bool>>, bs: Seq<bool>, t: int) -> Seq<bool> {
     let n = hs.len() as int;
-    if i < n - 1 { hs[i] } else { hs[n - 1] + Seq::new((nb - 1 - i) as nat, |k: int| bit_of(bits, nb - 1 - k)) }
+    let i = bs.len() - 1 - t;
+    if i < n - 1 { hs[i] } else { hs[n - 1] + bs.subrange(0, t) }
 }
 
-pub open spec fn nbits_syms(hs: Seq<Seq<bool>>, bits: u64, nb: int) -> Seq<Sym> {
-    Seq::new(nb as nat, |t: int| Sym::Ctx(bit_of(bits, nb - 1 - t), nbits_cell_hist(hs, bits, nb, nb - 1 - t)))
+/// symbols of the bit string bs (MSB first)
+pub open spec fn nbits_syms(hs: Seq<Seq<bool>>, bs: Seq<bool>) -> Seq<Sym> {
+    Seq::new(bs.len(), |t: int| Sym::Ctx(bs[t], nbits_cell_hist(hs, bs, t)))
 }
 
-/// histories after bits nb-1 .. i (inclusive) have been coded   (i == nb: nothing yet; i == 0: all)
-pub open spec fn nbits_hists_partial(hs: Seq<Seq<bool>>, bits: u64, nb: int, i: int) -> Seq<Seq<bool>> {
+/// histories after the first k bits of bs have been coded
+pub open spec fn nbits_hists_partial(hs: Seq<Seq<bool>>, bs: Seq<bool>, k: int) -> Seq<Seq<bool>> {
     let n = hs.len() as int;
+    let nb = bs.len() as int;
     Seq::new(hs.len(), |c: int|
-        if c < n - 1 { if i <= c < nb { hs[c].push(bit_of(bits, c)) } else { hs[c] } }
+        if c < n - 1 { if nb - k <= c < nb { hs[c].push(bs[nb - 1 - c]) } else { hs[c] } }
         else {
-            let lo = if i > n - 1 { i } else { n - 1 };
-            if nb > lo { hs[n - 1] + Seq::new((nb - lo) as nat, |k: int| bit_of(bits, nb - 1 - k)) } else { hs[n - 1] }
+            // bit indices nb-1 .. max(nb-k, n-1) went to the last cell: these are steps t = 0 .. min(k, nb-(n-1)) - 1
+            let cnt = if nb - (n - 1) < k { nb - (n - 1) } else { k };
+            if cnt > 0 { hs[n - 1] + bs.subrange(0, cnt) } else { hs[n - 1] }
         })
 }
 
-pub open spec fn nbits_hists(hs: Seq<Seq<bool>>, bits: u64, nb: int) -> Seq<Seq<bool>> {
-    nbits_hists_partial(hs, bits, nb, 0)
+pub open spec fn nbits_hists(hs: Seq<Seq<bool>>, bs: Seq<bool>) -> Seq<Seq<bool>> {
+    nbits_hists_partial(hs, bs, bs.len() as int)
+}
+
+/// the bits carried by the first nb symbols
+pub open spec fn sym_bits(rem: Seq<Sym>, nb: int) -> Seq<bool> {
+    Seq::new(nb as nat, |t: int| sym_bit(rem[t]))
+}
+
+/// reader side: the first nb symbols are context symbols whose recorded histories are the ones the cells will have
+pub open spec fn nbits_ok(rem: Seq<Sym>, hs: Seq<Seq<bool>>, nb: int) -> bool {
+    0 <= nb <= rem.len() && rem.subrange(0, nb) == nbits_syms(hs, sym_bits(rem, nb))
+}
+
+/// INVERSE LAW (n bits): what the writer emits for bs is accepted by the reader and carries bs
+pub proof fn lemma_nbits_inverse(hs: Seq<Seq<bool>>, bs: Seq<bool>, tail: Seq<Sym>)
+    ensures
+        nbits_ok(nbits_syms(hs, bs) + tail, hs, bs.len() as int),
+        sym_bits(nbits_syms(hs, bs) + tail, bs.len() as int) == bs,
+{
+    let rem = nbits_syms(hs, bs) + tail;
+    assert(sym_bits(rem, bs.len() as int) =~= bs);
+    assert(rem.subrange(0, bs.len() as int) =~= nbits_syms(hs, bs));
+}
+
+// ---- bypass bits ----
+pub open spec fn byp_syms(bs: Seq<bool>) -> Seq<Sym> { Seq::new(bs.len(), |t: int| Sym::Byp(bs[t])) }
+
+pub open spec fn byp_ok(rem: Seq<Sym>, nb: int) -> bool {
+    0 <= nb <= rem.len() && forall|t: int| 0 <= t < nb ==> rem[t] is Byp
+}
+
+pub proof fn lemma_byp_inverse(bs: Seq<bool>, tail: Seq<Sym>)
+    ensures byp_ok(byp_syms(bs) + tail, bs.len() as int), sym_bits(byp_syms(bs) + tail, bs.len() as int) == bs,
+{
+    assert(sym_bits(byp_syms(bs) + tail, bs.len() as int) =~= bs);
 }
